@@ -16,36 +16,42 @@
      late_retransmission       ... with messages 3 / 4 repeated after the handshake had completed (1,2,3,4,3,4)
      restart_by_m1             ... a message 1 arrives while a handshake is in progress and the handshake is then run
                                again from message 2 (1,2,1,2,3,4 -- re-sent message 1 answered again, or a new ANonce)
+     snonce_renewed            ... the supplicant answers a re-sent message 1 with a message 2 carrying a NEW SNonce while
+                               the previous message 2 is the last thing seen of the handshake (1,1,2,2',3,4): what IEEE
+                               802.11-2012 11.6.6.2 describes ("generates a new nonce SNonce" on every message 1)
      crossing_retransmission   anything else, i.e. a re-sent message crosses the answer to its original
                                (1,2,1,3,4  or  1,1,2,3,2,4): the class of defect F17
    The capturer's comments document the first two ("skip repeated"); the oracle of WifiTrace is the same for all classes
    -- the label only names the class in the scenario signature. *)
 EXTENDS FourWay, Json
-CONSTANT MaxLen
+CONSTANTS MaxLen, MinLen      \* a history is cut at MaxLen items; Finish is possible from MinLen items on
 VARIABLE fin
 gvars == <<vars, fin>>
 
 GInit == Init /\ fin = FALSE
 Quiet == \A s \in Stations : toSta[s] = <<>> /\ toAp[s] = <<>>
-Finish == /\ ~fin /\ Quiet /\ hist # <<>> /\ fin' = TRUE /\ UNCHANGED vars
+Finish == /\ ~fin /\ Quiet /\ Len(hist) >= MinLen /\ fin' = TRUE /\ UNCHANGED vars
 GNext == \/ ~fin /\ Len(hist) < MaxLen /\ Next /\ UNCHANGED fin
          \/ Finish
 GSpec == GInit /\ [][GNext]_gvars
 
 StepC(c, x) ==
-    LET c1 == [c EXCEPT !.last = x.m, !.lastan = x.an] IN
-    IF x.m = c.last /\ (x.m # 1 \/ x.an = c.lastan) THEN [c1 EXCEPT !.dup = TRUE]
+    LET c1 == [c EXCEPT !.last = x.m, !.lastan = x.an, !.lastsn = x.sn] IN
+    IF x.m = c.last /\ x.an = c.lastan /\ x.sn = c.lastsn THEN [c1 EXCEPT !.dup = TRUE]
     ELSE IF x.m = 1 THEN (IF c.p \in {0, 4} THEN [c1 EXCEPT !.p = 1] ELSE [c1 EXCEPT !.p = 1, !.restart = TRUE])
-    ELSE IF x.m = c.p + 1 THEN [c1 EXCEPT !.p = x.m]
+    ELSE IF x.m = 2 /\ c.p = 2 /\ x.sn # c.sn2 THEN [c1 EXCEPT !.renewed = TRUE, !.sn2 = x.sn]
+    ELSE IF x.m = c.p + 1 THEN [c1 EXCEPT !.p = x.m, !.sn2 = IF x.m = 2 THEN x.sn ELSE @]
     ELSE IF c.p = 4 /\ x.m \in {3, 4} THEN [c1 EXCEPT !.late = TRUE]
     ELSE [c1 EXCEPT !.cross = TRUE]
 Classify(s) ==
     LET q == SelectSeq(hist, LAMBDA x : x.k = "hs" /\ x.s = s)
-        F[i \in 0..Len(q)] == IF i = 0 THEN [p |-> 0, last |-> 0, lastan |-> 0, dup |-> FALSE, restart |-> FALSE, late |-> FALSE, cross |-> FALSE]
+        F[i \in 0..Len(q)] == IF i = 0 THEN [p |-> 0, last |-> 0, lastan |-> 0, lastsn |-> 0, sn2 |-> 0, dup |-> FALSE, restart |-> FALSE,
+                                             late |-> FALSE, renewed |-> FALSE, cross |-> FALSE]
                               ELSE StepC(F[i - 1], q[i])
         c == F[Len(q)] IN
     IF q = <<>> THEN "none"
     ELSE IF c.cross THEN "crossing_retransmission"
+    ELSE IF c.renewed THEN "snonce_renewed"
     ELSE IF c.restart THEN "restart_by_m1"
     ELSE IF c.late THEN "late_retransmission"
     ELSE IF c.dup THEN "adjacent_duplicate"
